@@ -553,15 +553,16 @@ func oracleC02(c *DriveCtx, res *Result) {
 		}
 		senderDoc, _ := docFor(res, o.actor.ID)
 		want, fetched := modelResolve(res, o.stored, idOf(senderDoc["inbox"]), ex.Limit, ex.Stored)
-		// (c) what may be dereferenced
+		// (c) what must not be dereferenced: Public, and whatever lies only beyond the configured depth
+		_, deep := modelResolve(res, o.stored, idOf(senderDoc["inbox"]), ex.Limit+8, ex.Stored)
 		for _, d := range s.World.Derefs {
 			if d.Task != t.ID {
 				continue
 			}
 			if isPublic(d.IRI) {
 				s.violate("C02", "public-dereferenced", "prepare", "Public was dereferenced")
-			} else if !fetched[d.IRI] {
-				s.violate("C02", "dereferenced-outside-model", "prepare", fmt.Sprintf("%s dereferenced %s, which the model does not visit within depth %d (activity %s)", t.ID, d.IRI, ex.Limit, canonJSON(addressing(o.stored))))
+			} else if !fetched[d.IRI] && deep[d.IRI] {
+				s.violate("C02", "dereferenced-beyond-depth", "prepare", fmt.Sprintf("%s dereferenced %s, which lies beyond depth %d (activity %s)", t.ID, d.IRI, ex.Limit, canonJSON(addressing(o.stored))))
 			}
 		}
 		batches := 0
@@ -883,15 +884,15 @@ func oracleC05(c *DriveCtx, res *Result) {
 					s.violate("C05", "recipient-normalisation-object", "create:"+p, fmt.Sprintf("object %d %s is %v; must contain %v and stay within the activity's %v", i, p, sortedSet(got), min, sortedSet(idsOf(o.stored[p]))))
 				}
 			}
-			// stored on its own, before the activity
+			// stored on its own, before anything is delivered
 			found := false
 			for _, e := range o.creates {
-				if e.ID == idOf(omS) && e.Seq < o.storeSeq {
+				if e.ID == idOf(omS) && (o.firstTp < 0 || e.Seq < o.firstTp) {
 					found = true
 				}
 			}
 			if !found {
-				s.violate("C05", "object-not-stored", "create", fmt.Sprintf("embedded object %d (%s) was not stored before the activity", i, idOf(omS)))
+				s.violate("C05", "object-not-stored", "create", fmt.Sprintf("embedded object %d (%s) was not stored (before any delivery)", i, idOf(omS)))
 			}
 		}
 	}
